@@ -867,6 +867,8 @@ def run_profile_names(res, tmp):
     prog = _write(os.path.join(d, "mod.py"), "assert x\nexec(c)\nimport pickle\n")
     clean = _write(os.path.join(d, "clean.py"), "x = 1\n")
     names = ["plain", "py3.9", "ci-strict", "v1.2.3", "web app", "a.b.c", "profiles", "tests"]
+    import diffhints
+    names += [("p" + s_ + "q") for s_ in diffhints.hints(C.REPO)["strings"][:6] if "\n" not in s_ and ("p" + s_ + "q") not in names]
     cfg = os.path.join(d, "cfg.yaml")
     with open(cfg, "w") as fh:
         yaml.safe_dump({"profiles": {n: {"include": ["B101", "B102"]} for n in names}}, fh)
